@@ -75,3 +75,70 @@ SEARCH = {'c19_query_root_gating': ['c19_modes']}
 BOUNDED = {'C19': [dict(case='c19_modes', function='QueryRoot::resolve_field, Schema::execute_once (introspection-only mutation root), Fields::add_set (__typename) through Schema::execute',
                         bound='the full 3x3 matrix of schema-level x request-level modes x 10 operations (introspection, __typename, ordinary query and mutation fields, federation _service) on a static schema, and x 6 operations (incl. _service, _entities) on a dynamic federation schema',
                         why='the kernel abstracts every payload to a trace event; the bounded matrix ties the gating to the real payloads. Subscriptions are not exercised')]}
+
+
+# ----------------------------------------------------------------------------------------------------------------------
+# dynamic schemas: the per-field gating of dynamic::resolve::collect_fields (E2 fragment, payloads as trace events)
+D = 'src/dynamic/resolve.rs'
+
+DYN_SHIMS = r'''
+pub struct PName { pub node: String }
+pub struct PFieldNode { pub name: PName }
+pub struct PField { pub node: PFieldNode }
+pub struct Registry { pub introspection_mode: IntrospectionMode, pub enable_federation: bool, pub query_type: String }
+pub struct SchemaEnv { pub registry: Registry }
+pub struct QueryEnv { pub introspection_mode: IntrospectionMode }
+pub struct Ctx { pub schema_env: SchemaEnv, pub query_env: QueryEnv }
+pub struct SchemaInner { pub env: SchemaEnv }
+pub struct Schema(pub SchemaInner);
+pub struct Object { pub name: String }
+// which payload the field is handed to (R-payload): each collect_* call / pushed future is ONE trace event
+#[derive(PartialEq, Eq, Structural, Clone, Copy)]
+pub enum Ev { Typename, SchemaMeta, TypeMeta, Service, Entities, NullField, UserField }
+pub fn ev(tr: &mut Vec<Ev>, e: Ev) ensures final(tr)@ == old(tr)@.push(e) { tr.push(e); }
+'''
+
+DYN_SPEC = r'''
+pub open spec fn dname(field: &PField) -> Seq<char> { field.node.name.node@ }
+pub open spec fn ddisabled(ctx: &Ctx) -> bool { ctx.schema_env.registry.introspection_mode is Disabled || ctx.query_env.introspection_mode is Disabled }
+pub open spec fn donly(ctx: &Ctx) -> bool { ctx.schema_env.registry.introspection_mode is IntrospectionOnly || ctx.query_env.introspection_mode is IntrospectionOnly }
+// what the property allows for one selected field under the two modes
+pub open spec fn allowed(ctx: &Ctx, field: &PField, e: Ev) -> bool {
+    (dname(field) == "__typename"@ ==> e == Ev::Typename)                                         // __typename always resolves
+    && (ddisabled(ctx) ==> e != Ev::SchemaMeta && e != Ev::TypeMeta && e != Ev::Service)           // disabled: no schema metadata
+    && (donly(ctx) ==> e != Ev::UserField && e != Ev::Entities)                                    // introspection-only: no user / entity resolver
+}
+'''
+
+
+def dynamic_gate_unit(kf):
+    u = Unit('c19_dynamic_gating', ['C19'], 'dynamic collect_fields hands every selected field to a payload the introspection modes allow')
+    u.kf = kf
+    u.prelude('string_eq')
+    u.extract_type('src/schema.rs', ['enum IntrospectionMode'], keep_derives=['Copy', 'Clone', 'PartialEq', 'Eq'], structural=True)
+    u.trusted(DYN_SHIMS, 'context shims; payloads as trace events')
+    u.spec(DYN_SPEC, 'mode predicates (dynamic)')
+    ent = u.carve('C19-dynamic-entities-in-introspection-only', '!(donly(ctx) && !ddisabled(ctx) && dname(field) == "_entities"@ && ctx.schema_env.registry.enable_federation && object.name@ == schema.0.env.registry.query_type@)')
+    u.extract_fragment(D, ['fn collect_fields'], 'if field.node.name.node == "__typename" {', 'collect_field(fields, schema, object, ctx, parent_value, field_def, field); }',
+                       name='gate_field',
+                       header='fn gate_field(schema: &Schema, object: &Object, ctx: &Ctx, field: &PField, tr: &mut Vec<Ev>)',
+                       footer='}',
+                       rewrites=[Sub('collect_typename_field(fields, object, field);', 'ev(tr, Ev::Typename);', rule='R-payload'),
+                                 Sub('collect_schema_field(fields, ctx, field);', 'ev(tr, Ev::SchemaMeta);', rule='R-payload'),
+                                 Sub('collect_type_field(fields, ctx, field);', 'ev(tr, Ev::TypeMeta);', rule='R-payload'),
+                                 Sub('collect_service_field(fields, ctx, field);', 'ev(tr, Ev::Service);', rule='R-payload'),
+                                 Sub('collect_entities_field(fields, schema, ctx, parent_value, field);', 'ev(tr, Ev::Entities);', rule='R-payload'),
+                                 ReplaceRange([('fields.push( async move', '.boxed(), );', 'ev(tr, Ev::NullField);'),
+                                               ('if let Some(field_def) = object.fields.get(', 'collect_field(fields, schema, object, ctx, parent_value, field_def, field); }', 'ev(tr, Ev::UserField);')]),
+                                 Sub('continue;', 'return;', count='+', rule='R-frag', why='the fragment is one iteration of the selection loop: `continue` ends it'),
+                                 Sub('field.node.name.node ==', 'field.node.name.node.as_str() ==', count='+', rule='R-ty')],
+                       requires=ent + ['true'],
+                       ensures=['final(tr)@.len() == old(tr)@.len() + 1 && final(tr)@.take(old(tr)@.len() as int) == old(tr)@   // exactly one payload per selected field',
+                                'allowed(ctx, field, final(tr)@.last())'])
+    u.assume('E2 fragment (one iteration of the selection loop); R-payload: each collect_* call / pushed future is one trace event; the payloads themselves are not verified')
+    u.search_case('dynamic/resolve.rs', 'c19_modes')
+    return u
+
+
+UNITS['c19_dynamic_gating'] = (['C19'], dynamic_gate_unit)
+SEARCH['c19_dynamic_gating'] = ['c19_modes']
